@@ -11,6 +11,7 @@ line "VIOLATION property=<id> replay=<path>", 2 infrastructure trouble (never a 
 import json, os, re, shutil, subprocess, sys, tempfile, time, glob
 
 V = '/verif'
+OUT = os.environ.get('VERIF_OUT', V)  # evidence/ and replays/ go here (mutation testing redirects it)
 NCPU = os.cpu_count() or 8
 
 # property -> parameters. n = worlds per tier (upper bound), budget = seconds per worker, batch = worlds per process
@@ -87,14 +88,18 @@ def race_signature(text):
             fn = lines[i].strip()
             loc = lines[i + 1].strip()
             i += 2
-            if '/simrt' in loc or 'verifharness' in fn or '/h/' in loc and 'mux' not in loc:
+            if fn.startswith('runtime.') or fn.startswith('sync.') or fn.startswith('internal/'):
                 continue
+            if '/simrt/' in loc or fn.startswith('main.'):
+                frame = kind + ' <harness:%s>' % fn.split('(')[0]
+                break
             mm = re.search(r'/mux/(.*?\.go):(\d+)', loc)
             if mm and 'github.com/issue9/mux' in fn:
                 f = re.sub(r'\[.*?\]', '', fn.split('/')[-1])
                 f = re.sub(r'\(\)$', '', f)
                 frame = '%s %s@%s:%s' % (kind, f, mm.group(1), mm.group(2))
                 break
+            # some other package (stdlib called from the module): keep looking upwards
         accs.append(frame or (kind + ' <outside module>'))
     if len(accs) < 2:
         return None, rep
@@ -194,7 +199,7 @@ class Runner:
             if rc != 66:
                 return False
             s, _ = race_signature(se)
-            return s == sig
+            return s is not None and '<harness:' not in s
         def lists(w):
             res = [('ops', None), ('setup', None)]
             for i in range(len(w.get('tasks') or [])):
@@ -202,10 +207,11 @@ class Runner:
             return res
         def get(w, k):
             l = w.get(k[0]) or []
-            return l if k[1] is None else l[k[1]]
+            return l if k[1] is None else (l[k[1]] or [])
         def put(w, k, v):
             if k[1] is None:
-                w[k[0]] = v
+                if v or w.get(k[0]):
+                    w[k[0]] = v
             else:
                 w[k[0]][k[1]] = v
         for k in lists(w):
@@ -291,8 +297,8 @@ def _check(R):
         sig, rep = race_signature(etxt)
         if sig is None:
             die(2, 'verifctl: worker exited 66 without a parsable race report:\n' + etxt[-3000:])
-        if '<outside module>' in sig and sig.count('<outside module>') == 2:
-            die(2, 'verifctl: race report with both stacks outside the module under test (harness bug):\n' + rep[:3000])
+        if sig.count('<outside module>') == 2 or '<harness:' in sig:
+            die(2, 'verifctl: race report inside the simulator/harness, not the module under test (harness bug, exit 2):\n' + rep[:3000])
         key = ('race-detector', sig)
         if key in seen:
             continue
@@ -300,10 +306,10 @@ def _check(R):
         w = R.gen_world(idx)
         found.append((w, {'property': prop, 'oracle': 'race-detector', 'signature': sig, 'detail': rep.strip()[:4000], 'step': 0}, etxt))
 
-    os.makedirs(V + '/replays', exist_ok=True)
+    os.makedirs(OUT + '/replays', exist_ok=True)
     viol_lines, known_lines = [], []
     for w, v, racetxt in found[:6]:
-        path = '%s/replays/%s-%d-%d-%s.json' % (V, prop, seed, w['idx'], re.sub(r'[^a-zA-Z0-9]+', '_', v['signature'])[:40])
+        path = '%s/replays/%s-%d-%d-%s.json' % (OUT, prop, seed, w['idx'], re.sub(r'[^a-zA-Z0-9]+', '_', v['signature'])[:40])
         json.dump({'property': prop, 'world': w, 'expect': v, 'minimised': False}, open(path, 'w'), indent=1)
         if racetxt is None:
             subprocess.run([R.cache + '/h', '-min', path, '-out', path], stdout=subprocess.DEVNULL, stderr=subprocess.DEVNULL, timeout=300)
@@ -315,9 +321,10 @@ def _check(R):
         else:
             rc, so, se = R.replay_once(path)
             s2, _ = race_signature(se)
-            if rc != 66 or s2 != v['signature']:
-                # the race may need the worlds executed before it in the same process (process-wide state)
-                rf = json.load(open(path)); rf['note'] = 'needs process prefix: batch from %d' % idx
+            # Which of several racing pairs of one world is reported first is up to the
+            # detector's bounded shadow history; the reproduction criterion is therefore
+            # "the replay ends with a race report inside the module", not the same pair.
+            if rc != 66 or s2 is None or '<harness:' in s2:
                 die(2, 'verifctl: race %s of world %d did not reproduce alone in a fresh process (rc=%d sig=%s)' % (v['signature'], w['idx'], rc, s2))
             R.minimise_race(path, v['signature'])
         k = known_match(known, prop, v['oracle'], v['signature'])
@@ -361,8 +368,8 @@ def _check(R):
     if zero:
         ev['coverage']['probes_stuck_at_zero'] = zero
         print('warning: probes at zero: ' + ', '.join(zero))
-    os.makedirs(V + '/evidence', exist_ok=True)
-    json.dump(ev, open('%s/evidence/%s.json' % (V, prop), 'w'), indent=1)
+    os.makedirs(OUT + '/evidence', exist_ok=True)
+    json.dump(ev, open('%s/evidence/%s.json' % (OUT, prop), 'w'), indent=1)
     print('%s %s: %d worlds (%d non-trivial, %d distinct), %d sim events, %.1fs, %d/h' % (prop, tier, worlds, nontriv, len(distinct), events, wall, ev['coverage']['runs_per_hour']))
     for l in known_lines:
         print(l)
